@@ -925,6 +925,7 @@ func c08Run(r *verdict.Run, race bool, nhist, ncons int, tag string) {
 			return
 		}
 		finish := func(c *host.Child) {
+			reportLockMonitor(r, c)
 			if race {
 				c.QuitGracefully()
 				raceMu.Lock()
@@ -938,6 +939,7 @@ func c08Run(r *verdict.Run, race bool, nhist, ncons int, tag string) {
 			}
 		}
 		defer func() { finish(c) }()
+		enableLockMonitor(c)
 		c.Ctl("seed %d", r.Seed*977+int64(shard))
 		c.Ctl("yield ds: 250 150")
 		if shard >= nsh {
